@@ -2,7 +2,7 @@
    Everything named T_*, G1_*, F_*, metric_*, conn_*, topo_ints is REGENERATED from the source on every run. *)
 From Coq Require Import Reals Lra List Bool ZArith.
 From HT Require Import Field Proof_Metric TopoLib Proof_Geom1 Proof_Equivar.
-From HG Require Import Gen_Options Gen_Geom1 Gen_Fields Gen_Metric Gen_Topo.
+From HG Require Import Gen_Options Gen_Geom1 Gen_Fields Gen_Metric Gen_Topo Gen_Spacing.
 Import ListNotations.
 Local Open Scope R_scope.
 
@@ -139,7 +139,20 @@ Qed.
 Example C16_tables_nontrivial : (length conn_lsn = 4 /\ length conn_ldn >= 8)%nat /\ same_conn conn_usn conn_lsn = true /\ same_conn conn_udn conn_ldn = false.
 Proof. vm_compute. repeat split; repeat constructor. Qed.
 
+(* reflection exchanges the two ends of every region (y is reversed): the non-orthogonal blending ranges of combineSfuncs (expressions REGENERATED from the
+   source) treat the two ends alike -- on each side of the separatrix the upper-end range is the lower-end range with `lower` and `upper` exchanged, and it is
+   the *_inner parameter inside, the *_outer parameter outside the separatrix, reaching it exactly at the radial boundary (xweight = 1) *)
+Theorem C16_reflection_of_blending_ranges : forall xw rs ri ro,
+  S_Range_upper_in xw rs ri ro = S_Range_lower_in xw rs ri ro /\ S_Range_upper_out xw rs ri ro = S_Range_lower_out xw rs ri ro /\
+  S_Range_lower_in xw rs ri ro = (1 - xw) * rs + xw * ri /\ S_Range_lower_out xw rs ri ro = (1 - xw) * rs + xw * ro /\
+  S_Range_upper_in 1 rs ri ro = ri /\ S_Range_upper_out 1 rs ri ro = ro /\ S_Range_upper_in 0 rs ri ro = rs /\ S_Range_upper_out 0 rs ri ro = rs.
+Proof.
+  intros. unfold S_Range_upper_in, S_Range_lower_in, S_Range_upper_out, S_Range_lower_out. repeat split; ring.
+Qed.
+
+
 Print Assumptions C16_options_are_direct_transformations.
 Print Assumptions C16_fields_under_reversal.
 Print Assumptions C16_metric_magnitudes_under_reversal.
 Print Assumptions C16_reflection.
+Print Assumptions C16_reflection_of_blending_ranges.
